@@ -22,6 +22,12 @@ Notation small32 := Lemmas.Bech32Code.small32.      (* every symbol < 32 *)
 Notation segwit_const := Lemmas.Bech32.segwit_const. (* version 0 -> Bech32 constant, else Bech32m *)
 Notation segwit_prog_ok := Lemmas.Bech32.segwit_prog_ok.
 Notation kelvin_sign := Lemmas.Bech32Str.kelvin_sign.
+(* [dec_ascii_rule s]: bech32_dec_ascii_only = true -> every code point of s is below 128.  The generated
+   constant bech32_dec_ascii_only says whether _DecodeBech32 has an isascii() guard (false on the pinned
+   tree: finding F16); bech32_decoder_min_data is the minimum number of data symbols besides the checksum that
+   Bech32Decoder asks for (1 on the pinned tree: finding F11; 0 once empty payloads are accepted).  The
+   statements below are about whichever values the source currently yields. *)
+Notation dec_ascii_rule := Lemmas.Bech32.dec_ascii_rule.
 
 (* ================================================================== 8 <-> 5 bit regrouping *)
 Theorem base32_roundtrip : forall d syms, bytes_ok d ->
@@ -42,12 +48,12 @@ Print Assumptions base32_errors.
 
 (* ================================================================== Bech32 *)
 (* acceptance: exactly the strings that are not mixed-case and whose lower-casing is HRP + separator +
-   at least cklen + 1 charset symbols that verify (constant 1) and whose data symbols regroup strictly *)
+   at least cklen + min_data charset symbols that verify (constant 1) and whose data symbols regroup strictly *)
 Theorem bech32_accepts_iff : forall hrp s payload,
   bech32_decode hrp s = Ok payload <->
-  is_string_mixed s = false /\ hrp_ok hrp /\
+  dec_ascii_rule s /\ is_string_mixed s = false /\ hrp_ok hrp /\
   exists syms, py_lower s = hrp ++ bech32_sep :: map bsym syms /\ small32 syms /\
-    (bech32_cklen + 1 <= length syms)%nat /\ b32_verify_checksum bech32_const hrp syms = true /\
+    (bech32_cklen + bech32_decoder_min_data <= length syms)%nat /\ b32_verify_checksum bech32_const hrp syms = true /\
     from_base32 5 8 (drop_last bech32_cklen syms) = Ok payload.
 Proof. exact Lemmas.Bech32.bech32_decode_ok_iff. Qed.
 Print Assumptions bech32_accepts_iff.
@@ -66,27 +72,31 @@ Print Assumptions bech32_dec_then_enc.
 (* Full-strength round trip:
      forall hrp data, hrp_enc_ok hrp -> bytes_ok data ->
        exists s, bech32_encode hrp data = Ok s /\ bech32_decode hrp s = Ok data.
-   It is FALSE of the code (finding F11): the decoder demands cklen + 1 data-part characters, so the valid
-   encoding of the empty payload -- the BIP-173 test vector "a12uel5l" -- is rejected. *)
-Theorem bech32_dec_enc_refuted : exists hrp data s, hrp_enc_ok hrp /\ bytes_ok data /\
-  bech32_encode hrp data = Ok s /\ bech32_decode hrp s = Err ValueError.
+   As long as the decoder demands cklen + 1 data-part characters (bech32_decoder_min_data = 1, the pinned
+   tree) it is FALSE (finding F11): the valid encoding of the empty payload -- the BIP-173 test vector
+   "a12uel5l" -- is rejected.  (With the repair, bech32_decoder_min_data = 0, the premise is false and
+   bech32_dec_enc_partial below is the full-strength statement.) *)
+Theorem bech32_dec_enc_refuted : bech32_decoder_min_data = 1%nat ->
+  exists hrp data s, hrp_enc_ok hrp /\ bytes_ok data /\
+    bech32_encode hrp data = Ok s /\ bech32_decode hrp s = Err ValueError.
 Proof.
-  exists [97], [], [97; 49; 50; 117; 101; 108; 53; 108]. split; [|split; [constructor|split]].
-  - split; [discriminate|]. constructor; [|constructor]. vm_compute. intuition discriminate.
-  - vm_compute. reflexivity.
-  - vm_compute. reflexivity.
+  intro H. first [ discriminate H |
+    exists [97], [], [97; 49; 50; 117; 101; 108; 53; 108]; split; [|split; [constructor|split]];
+    [ split; [discriminate|]; constructor; [|constructor]; vm_compute; intuition discriminate
+    | vm_compute; reflexivity | vm_compute; reflexivity ] ].
 Qed.
 Print Assumptions bech32_dec_enc_refuted.
 
-Theorem bech32_dec_enc_partial : forall hrp data, hrp_enc_ok hrp -> bytes_ok data -> data <> [] ->
+Theorem bech32_dec_enc_partial : forall hrp data, hrp_enc_ok hrp -> bytes_ok data ->
+  data <> [] \/ bech32_decoder_min_data = 0%nat ->
   exists s, bech32_encode hrp data = Ok s /\ bech32_decode hrp s = Ok data.
 Proof. exact Lemmas.Bech32.bech32_dec_enc. Qed.
 Print Assumptions bech32_dec_enc_partial.
 
-Example bech32_dec_enc_example : exists hrp data, hrp_enc_ok hrp /\ bytes_ok data /\ data <> [] /\
+Example bech32_dec_enc_example : exists hrp data, hrp_enc_ok hrp /\ bytes_ok data /\ (data <> [] \/ bech32_decoder_min_data = 0%nat) /\
   bech32_encode hrp data = Ok [98; 99; 49; 112; 99; 113; 113; 102; 101; 122; 120; 107; 101].   (* "bc1pcqqfezxke" *)
 Proof.
-  exists [98; 99], [14; 0]. split; [|split; [|split; [discriminate|vm_compute; reflexivity]]].
+  exists [98; 99], [14; 0]. split; [|split; [|split; [left; discriminate|vm_compute; reflexivity]]].
   - split; [discriminate|]. repeat constructor; vm_compute; intuition discriminate.
   - repeat constructor.
 Qed.
@@ -94,15 +104,23 @@ Print Assumptions bech32_dec_enc_example.
 
 (* Full-strength statement "accepted strings are ASCII":
      forall hrp s p, bech32_decode hrp s = Ok p -> Forall (fun c => c < 128) s.
-   FALSE of the code (finding F16): "BC1PCQQFEZXKE" decodes like "BC1PCQQFEZXKE". *)
-Theorem bech32_accepts_only_ascii_refuted : exists hrp s p,
-  bech32_decode hrp s = Ok p /\ Exists (fun c => 128 <= c) s.
+   Without an isascii() guard (bech32_dec_ascii_only = false, the pinned tree) it is FALSE (finding F16):
+   "BC1PCQQFEZX" + U+212A + "E" decodes like "BC1PCQQFEZXKE". *)
+Theorem bech32_accepts_only_ascii_refuted : bech32_dec_ascii_only = false ->
+  exists hrp s p, bech32_decode hrp s = Ok p /\ Exists (fun c => 128 <= c) s.
 Proof.
-  exists [98; 99], [66; 67; 49; 80; 67; 81; 81; 70; 69; 90; 88; 8490; 69], [14; 0]. split.
-  - vm_compute. reflexivity.
-  - do 11 apply Exists_cons_tl. apply Exists_cons_hd. vm_compute. discriminate.
+  intro H. first [ discriminate H |
+    exists [98; 99], [66; 67; 49; 80; 67; 81; 81; 70; 69; 90; 88; 8490; 69], [14; 0]; split;
+    [ vm_compute; reflexivity | do 11 apply Exists_cons_tl; apply Exists_cons_hd; vm_compute; discriminate ] ].
 Qed.
 Print Assumptions bech32_accepts_only_ascii_refuted.
+
+(* ... and with the guard it holds, for all three decoders *)
+Theorem bech32_accepts_only_ascii_guarded : forall hrp s, bech32_dec_ascii_only = true ->
+  ((exists p, bech32_decode hrp s = Ok p) \/ (exists p, segwit_decode hrp s = Ok p) \/
+   (exists p, cash_decode hrp s = Ok p)) -> Forall (fun c => c < 128) s.
+Proof. exact Lemmas.Bech32.accepted_ascii_guard. Qed.
+Print Assumptions bech32_accepts_only_ascii_guarded.
 
 (* what does hold, decided over the whole code space of the interpreter's lower() table: the only
    non-ASCII code point an accepted Bech32-family string can contain is U+212A KELVIN SIGN *)
@@ -156,7 +174,7 @@ Print Assumptions bech32_verify_compute.
    2 <= |prog| <= 40, version <= 16, version 0 -> |prog| in {20, 32} *)
 Theorem segwit_accepts_iff : forall hrp s v prog,
   segwit_decode hrp s = Ok (v, prog) <->
-  is_string_mixed s = false /\ hrp_ok hrp /\
+  dec_ascii_rule s /\ is_string_mixed s = false /\ hrp_ok hrp /\
   exists rest, py_lower s = hrp ++ segwit_sep :: map bsym (v :: rest) /\ small32 (v :: rest) /\
     (segwit_cklen <= length rest)%nat /\ b32_verify_checksum (segwit_const v) hrp (v :: rest) = true /\
     from_base32 5 8 (drop_last segwit_cklen rest) = Ok prog /\ segwit_prog_ok v prog.
@@ -192,7 +210,7 @@ Print Assumptions segwit_dec_enc_example.
 (* ================================================================== CashAddr *)
 Theorem cashaddr_accepts_iff : forall hrp s nv data,
   cash_decode hrp s = Ok (nv, data) <->
-  is_string_mixed s = false /\ hrp_ok hrp /\
+  dec_ascii_rule s /\ is_string_mixed s = false /\ hrp_ok hrp /\
   exists syms b, py_lower s = hrp ++ cash_sep :: map bsym syms /\ small32 syms /\
     (cash_cklen + 1 <= length syms)%nat /\ cash_verify_checksum hrp syms = true /\
     from_base32 5 8 (drop_last cash_cklen syms) = Ok (b :: data) /\ nv = [b].
